@@ -1375,6 +1375,10 @@ class UFOWriter(UFOReader):
         # write file if there is anything to write
         if infoData:
             self._writePlist(FONTINFO_FILENAME, infoData)
+        else:
+            # like the other optional files: info without any attribute withdraws
+            # what is there, also when it was written through this same writer
+            self.removePath(FONTINFO_FILENAME, force=True, removeEmptyParents=False)
 
     # kerning.plist
 
